@@ -2,7 +2,7 @@
    Statements only; proofs in Proofs/ToggleProofs.v. All theorems are about whole transactions on the chain
    model (funds transfer, handler, sub-messages, replies), from an arbitrary world, for arbitrary senders. *)
 From MD.Model Require Import Base Ownable Epoch PoolMath Types PoolManager FarmManager Chain.
-From MD.Proofs Require Import SwapProofs ChainProofs PmProofs ToggleProofs.
+From MD.Proofs Require Import SwapProofs ChainProofs PmProofs ToggleProofs FrameProofs.
 
 Theorem C17_swaps_disabled_blocks_direct_swap : forall w sender funds ask bp ms r pid p,
   pool_find (w_pm w) pid = Ok p -> swaps_enabled (p_status p) = false ->
@@ -54,6 +54,28 @@ Theorem C17_pricing_ignores_status : forall p st offer ask,
   compute_swap (pool_with_status p st) offer ask = compute_swap p offer ask.
 Proof. exact compute_swap_status_irrelevant. Qed.
 
+(* THE FRAME. Let the switches of pool T be set to ANY status st (restat T st). Every swap, route, deposit or
+   withdrawal — on T or on any other pool — whose own switch is on before and after the change is accepted or rejected
+   exactly as before: same error, same messages, same resulting state up to the changed switches. So a switch
+   influences nothing but the acceptance of its own operation; re-enabling restores the behaviour. *)
+Theorem C17_switches_change_nothing_else : forall T st w sender funds m,
+  pool_op m = true -> gate m (w_pm w) = true -> gate m (restat T st (w_pm w)) = true ->
+  pm_execute (set_pm w (restat T st (w_pm w))) sender funds m = on_state (restat T st) (pm_execute w sender funds m).
+Proof. exact frame_execute. Qed.
+
+Theorem C17_operations_on_other_pools_unaffected : forall T st w sender funds m,
+  pool_op m = true -> gate m (w_pm w) = true ->
+  (match m with
+   | PmSwap _ _ _ _ pid | PmProvide _ _ _ pid _ _ | PmWithdraw pid => pid <> T
+   | PmRoute ops _ _ _ => Forall (fun o => so_pool o <> T) ops
+   | _ => True end) ->
+  pm_execute (set_pm w (restat T st (w_pm w))) sender funds m = on_state (restat T st) (pm_execute w sender funds m).
+Proof. exact other_pools_unaffected. Qed.
+
+(* the gate of an operation on T after the change is the corresponding switch of st, nothing else *)
+Theorem C17_gate_is_the_own_switch : forall T st s sel p, pool_find s T = Ok p -> flag_of (restat T st s) T sel = sel st.
+Proof. exact flag_restat_same. Qed.
+
 (* new pools start with everything enabled *)
 Theorem C17_new_pools_start_enabled : forall w funds denoms decimals fees pt oid s' msgs,
   create_pool w funds denoms decimals fees pt oid = Ok (s', msgs) ->
@@ -73,3 +95,6 @@ Print Assumptions C17_blocked_means_no_effect.
 Print Assumptions C17_toggle_changes_only_the_named_flags.
 Print Assumptions C17_pricing_ignores_status.
 Print Assumptions C17_new_pools_start_enabled.
+Print Assumptions C17_switches_change_nothing_else.
+Print Assumptions C17_operations_on_other_pools_unaffected.
+Print Assumptions C17_gate_is_the_own_switch.
